@@ -156,3 +156,90 @@ def patch_target(kind: int, t: int) -> bool:
         asts = fe.parse(text)
     good = (kind, TARGETS[t]) in ((0, 'ST'), (1, 'UO'), (2, 'UC'))
     return fe.decide([asts], lambda: [('t.stone', text)], 'accept' if good else 'reject')
+
+
+# ---------------------------------------------------------------- same-named types in two namespaces, either file order
+X_COMMON = '''namespace common
+
+struct Entry
+    id String
+
+union Tag
+    t0
+    te Entry
+
+struct Node
+    entry Entry
+    entries List(Entry)
+    me Map(String, Entry)?
+
+union UN
+    ue Entry
+    ut Tag
+'''
+X_FILES = '''namespace files
+
+import common
+
+struct Entry
+    size UInt64
+
+union Tag
+    f0
+
+%s
+'''
+X_USES = [
+    'struct Folder extends common.Node\n    own Entry\n    t Tag\n',
+    'union FU extends common.UN\n    own Entry\n    t Tag\n',
+    'struct Folder\n    n common.Node\n    own Entry\n    t Tag\n',
+    'alias AN = common.Node\nstruct Folder\n    n AN\n    own Entry\n    t Tag\n',
+    'struct Folder\n    n List(common.Node)\n    u common.UN?\n    own Entry\n    t Tag\n',
+    'struct Mid extends common.Node\n    m Entry\nstruct Folder extends Mid\n    own Entry\n    t Tag\n',
+]
+
+
+def _owner_of(dt):
+    from stone.ir import is_list_type, is_map_type, is_nullable_type, is_alias
+    while True:
+        if is_nullable_type(dt) or is_list_type(dt):
+            dt = dt.data_type
+        elif is_map_type(dt):
+            dt = dt.value_data_type
+        elif is_alias(dt) and dt.name == 'AN':
+            dt = dt.data_type
+        else:
+            return dt
+
+
+@hx.harness(props=['C01', 'C02', 'C03'], targets=['stone.frontend.ir_generator:IRGenerator._resolve_type'],
+            bound='two namespaces that both declare Entry and Tag; the importing one uses the other through extends (struct, '
+                  'union, two levels), a field, an alias, a List / nullable; both orders of the spec list (finite domain)',
+            budget=(60, 200))
+def cross_namespace(use: int, files_first: bool) -> bool:
+    """
+    pre: 0 <= use < len(X_USES)
+    post: _
+    """
+    use = int(use)
+    files_first = bool(files_first)
+    specs = [('files.stone', X_FILES % X_USES[use]), ('common.stone', X_COMMON)]
+    if not files_first:
+        specs.reverse()
+    with fe.no_tracing():
+        asts = [fe.parse(t, p) for p, t in specs]
+
+    def fidelity(api):
+        # every member declared in a namespace with an unqualified type name is typed by THAT namespace's definition
+        for nsname in ('common', 'files'):
+            ns = api.namespaces[nsname]
+            for dt in ns.data_types:
+                for f in dt.fields:
+                    target = _owner_of(f.data_type)
+                    if getattr(target, 'name', None) in ('Entry', 'Tag'):
+                        if target is not ns.data_type_by_name[target.name]:
+                            return False
+                    if f.name in ('n', 'u') and target.namespace.name != 'common':
+                        return False
+        return True
+    return fe.decide(asts, lambda: specs, 'accept', fidelity)
